@@ -41,7 +41,7 @@ Lemma testbit_flags_word flags k : N.testbit (flags_word flags) k = memN k flags
 Proof. unfold flags_word. rewrite testbit_flags_word_gen. reflexivity. Qed.
 
 Lemma setN_same {A} (l : list A) i x : nthN l i = Some x -> setN l i x = l.
-Proof. intros H. unfold setN, updN. apply upd_nat_id. intros y Hy. unfold nthN in H. congruence. Qed.
+Proof. intros H. unfold setN; rewrite updN_eq. apply upd_nat_id. intros y Hy. rewrite nthN_eq in H. congruence. Qed.
 Lemma nthN_setN_same {A} (l : list A) i x y : nthN l i = Some x -> nthN (setN l i y) i = Some y.
 Proof. intros H. unfold setN. rewrite nthN_updN_same, H. reflexivity. Qed.
 Lemma setN_setN {A} (l : list A) i x y : setN (setN l i x) i y = setN l i y.
@@ -351,7 +351,7 @@ Section AttMain.
     2:{ intros i Hi. apply (proj1 (in_sort_uniq i idxs)) in Hi. destruct (Hidx i Hi) as (v & Hv & Hact).
         assert (He : eff_bal st i = v_effective_balance v) by (unfold eff_bal; rewrite Hv; reflexivity).
         rewrite He. split; [apply (eo_eff E st epc Hepc i v Hv Hact)|]. split.
-        - apply (sb_eff E st Hb). unfold nthN in Hv. eapply nth_error_In. exact Hv.
+        - apply (sb_eff E st Hb). rewrite nthN_eq in Hv. eapply nth_error_In. exact Hv.
         - rewrite Hl0. eapply nthN_Some_lt. exact Hv. }
     2:{ unfold two64. assert (N.of_nat (length (sort_uniq idxs)) * att_unit E brpi <= N.of_nat (length idxs) * att_unit E brpi)
           by (apply N.mul_le_mono_r; lia). lia. }
@@ -372,7 +372,7 @@ Section AttMain.
         lia. }
       specialize (Hgen idxs (part0, 0)). cbn [snd] in Hgen. rewrite N.add_0_l in Hgen. apply Hgen.
       intros i Hi. destruct (Hidx i Hi) as (v & Hv & _). unfold eff_bal. rewrite Hv. apply (sb_eff E st Hb).
-      unfold nthN in Hv. eapply nth_error_In. exact Hv. }
+      rewrite nthN_eq in Hv. eapply nth_error_In. exact Hv. }
     destruct (fold_left (att_step E st (flags_word flags) brpi) idxs (part0, 0)) as [part num] eqn:Hfold. cbn [snd] in Hnumb.
     assert (Hpf : get_beacon_proposer_index E
                     (if is_cur then st <| current_epoch_participation := part |> else st <| previous_epoch_participation := part |>)
@@ -383,7 +383,7 @@ Section AttMain.
     rewrite (eo_proposer E st epc Hepc) in Hp. pose proof (proposer_in_range E st p Hp) as Hpr.
     assert (Hpb : p < N.of_nat (length (balances st))) by (rewrite (sb_lens E st Hb); exact Hpr).
     destruct (nthN_lt_Some _ _ Hpb) as [x Hx].
-    assert (Hxb : x < 2 ^ 63) by (apply (sb_bal E st Hb); unfold nthN in Hx; eapply nth_error_In; exact Hx).
+    assert (Hxb : x < 2 ^ 63) by (apply (sb_bal E st Hb); rewrite nthN_eq in Hx; eapply nth_error_In; exact Hx).
     change (2 ^ 63) with 9223372036854775808 in Hxb.
     set (denom := (WEIGHT_DENOMINATOR - PROPOSER_WEIGHT) * WEIGHT_DENOMINATOR / PROPOSER_WEIGHT).
     assert (Hr : num / denom <= num) by apply Ndiv_le.
